@@ -414,7 +414,7 @@ class Flow:
             return None
 
         alld = [d for d in self.defs if d.var == name]
-        if sum(1 for d in alld if d.kind != "mutate") != 1 or any(d.kind not in ("assign", "mutate") for d in alld):
+        if any(d.kind not in ("assign", "mutate", "param") for d in alld):
             return None
         cands = [d for d in self.reaching(name, at) if const_key(d) == (key,) and isinstance(d.stmt, ast.Assign)]
         if len(cands) != 1:
@@ -424,7 +424,12 @@ class Flow:
             return None
         after_s = self.cfg.reachable(s.node)
         for m in alld:
-            if m is s or m.kind != "mutate":
+            if m is s:
+                continue
+            if m.kind != "mutate":
+                # the name is bound to another object between the store and the use
+                if m.node in after_s and (m.node == at or at in self.cfg.reachable(m.node, avoid={s.node})):
+                    return None
                 continue
             k = const_key(m)
             if k is not None and k != (key,):
